@@ -1139,6 +1139,12 @@ def ssum_range(arr, sort, lo, hi):
     elo, ehi = lift(lo), lift(hi)
     c = cur()
     zero = z3.IntVal(0) if sort == z3.IntSort() else z3.RealVal(0)
+    if ("ssum_empty", str(sort)) not in c.axioms_done:
+        # a sum over an empty range is zero - for every array, also for sums that are mentioned under a quantifier (the instance facts below are
+        # about the terms of this call only)
+        c.axioms_done.add(("ssum_empty", str(sort)))
+        a_, l_, h_ = z3.Const("a!se", z3.ArraySort(z3.IntSort(), sort)), z3.Int("l!se"), z3.Int("h!se")
+        c.axioms.append(z3.ForAll([a_, l_, h_], z3.Implies(h_ <= l_, f(a_, l_, h_) == zero), patterns=[f(a_, l_, h_)]))
     c.assume(z3.Implies(ehi <= elo, f(arr, elo, ehi) == zero))
     c.assume(z3.Implies(ehi > elo, f(arr, elo, ehi) == f(arr, elo, ehi - 1) + z3.Select(arr, ehi - 1)))
     c.assume(z3.Implies(ehi > elo, f(arr, elo, ehi) == z3.Select(arr, elo) + f(arr, elo + 1, ehi)))
@@ -1229,7 +1235,12 @@ def seq_eq(a, b):
 # counterexample extraction
 
 def concretize(v, m, cap=6):
+    if not isinstance(v, Sym) and hasattr(v, "vfw_concretize"):
+        return v.vfw_concretize(m, cap)
     if isinstance(v, SObj):
+        hook = (OBJ_SCHEMAS.get(v.cls) or {}).get("__concretize__")
+        if hook is not None:
+            return hook(v, m)
         return f"<{v.cls} {m.eval(v.e, model_completion=True)}>"
     if isinstance(v, Sym):
         r = m.eval(v.e, model_completion=True)
